@@ -70,6 +70,7 @@ def cases(ctx):
         yield "relderel", [21, a, o]
         yield "split", [12, a, rng.randint(-1, len(a) + 1)]
         yield "parent", [13, a]
+        yield "parent_ways", [26, a]
         yield "choose", [16, a, o if rng.random() < 0.8 else None, rng.randrange(2)]
     # dns.namedict.NameDict: lookups go through Name.__hash__/__eq__ (oracle-only, op 22)
     for _ in range(ctx.n(150, 3000)):
@@ -90,6 +91,10 @@ def cases(ctx):
             keys.append([])
         if nl.fits(q):
             yield "namedict", [22, keys, q]
+    # parent() on every way of constructing a name, in particular root and empty (deterministic)
+    for fixed in ([], [b""], [b"a"], [b"a", b""], [b"A", b"b"], [b"www", b"Example", b""], [b"\x00"], [b"@", b""], [b".", b""]):
+        ctx.count("parent:ways-fixed")
+        yield "parent_ways", [26, fixed]
     # NameDict built from an initial mapping / list of pairs / update(), then assignments and deletions
     for _ in range(ctx.n(250, 4000)):
         q = nl.gen_labels(rng, budget=rng.choice([20, 60]))
@@ -279,7 +284,7 @@ def succ_cases(rng, o, shape, oct_):
 
 
 def in_model(kind, case):
-    return case[0] not in (20, 21, 22, 23) and not kind.endswith("-o")
+    return case[0] not in (20, 21, 22, 23, 26) and not kind.endswith("-o")
 
 
 def impl(case):
@@ -288,6 +293,55 @@ def impl(case):
         a, b, c = (nl.N(x) for x in case[1:4])
         return [a.fullcompare(b)[1], b.fullcompare(c)[1], a.fullcompare(c)[1], b.fullcompare(a)[1],
                 int(a == b), int(hash(a) == hash(b)), int(a < b), int(a <= b), int(a > b), int(a >= b), int(a != b)]
+    if op == 26:
+        import copy
+        import pickle
+
+        import dns.name
+
+        ls = [bytes(l) for l in case[1]]
+        try:
+            base = nl.N(ls)
+        except Exception as e:  # noqa
+            return nl.exc_code(e)
+        ways = [("Name(labels)", lambda: nl.N(ls)),
+                ("copy", lambda: copy.copy(base)),
+                ("deepcopy", lambda: copy.deepcopy(base)),
+                ("pickle", lambda: pickle.loads(pickle.dumps(base))),
+                ("from_text(to_text)", lambda: dns.name.from_text(base.to_text(), None)),
+                ("from_text(bytes)", lambda: dns.name.from_text(base.to_text().encode("latin-1"), None)),
+                ("concatenate(empty)", lambda: base.concatenate(dns.name.empty) if not base.is_absolute() else base + dns.name.empty),
+                ("derelativize/relativize", lambda: base.relativize(dns.name.empty) if not base.is_absolute() else base.derelativize(dns.name.root))]
+        if base.is_absolute():
+            ways.append(("from_wire", lambda: dns.name.from_wire(base.to_wire(), 0)[0]))
+            ways.append(("split suffix", lambda: base.split(len(base))[1]))
+        if ls == [b""]:
+            ways.append(("dns.name.root", lambda: dns.name.root))
+            ways.append(("from_text('.')", lambda: dns.name.from_text(".")))
+            ways.append(("from_wire(b'\\0')", lambda: dns.name.from_wire(b"\0", 0)[0]))
+            ways.append(("x.parent()", lambda: dns.name.Name([b"x", b""]).parent()))
+        if ls == []:
+            ways.append(("dns.name.empty", lambda: dns.name.empty))
+            ways.append(("from_text('@', None)", lambda: dns.name.from_text("@", None)))
+            ways.append(("x.relativize(x)", lambda: dns.name.Name([b"x", b""]).relativize(dns.name.Name([b"X", b""]))))
+            ways.append(("x.parent()", lambda: dns.name.Name([b"x"]).parent()))
+            ways.append(("split prefix", lambda: dns.name.Name([b"x"]).split(1)[0]))
+        out = []
+        for nm, mk in ways:
+            try:
+                n = mk()
+                if nl.labels_of(n) != ls:
+                    out.append([nm.encode(), [b"construction-differs"], 0, 0, 0, 0])
+                    continue
+                try:
+                    p_ = n.parent()
+                    r, o, k = p_.fullcompare(n)
+                    out.append([nm.encode(), nl.labels_of(p_), int(r), (o > 0) - (o < 0), k, int(p_.is_absolute() == n.is_absolute())])
+                except Exception as e:  # noqa
+                    out.append([nm.encode(), nl.exc_code(e), 0, 0, 0, 0])
+            except Exception as e:  # noqa
+                out.append([nm.encode(), [b"construction-failed: " + type(e).__name__.encode()], 0, 0, 0, 0])
+        return out
     if op == 23:
         import dns.namedict
 
@@ -451,6 +505,27 @@ def _oracle(ctx, kind, case, out):
             fail("equal names hash differently")
         if (bool(lt), bool(le), bool(gt), bool(ge), bool(ne)) != (ab < 0, ab <= 0, ab > 0, ab >= 0, ab != 0):
             fail("rich comparisons disagree with fullcompare")
+    elif op == 26:
+        ls = case[1]
+        for nm, par, r, o, k, samerel in out:
+            how = bytes(nm).decode()
+            if not isinstance(par, Err) and par and bytes(par[0]).startswith(b"construction-"):
+                fail("could not build the name via " + how + ": " + bytes(par[0]).decode())
+                break
+            if ls == [] or ls == [b""]:
+                if not (isinstance(par, Err) and par.code == 10):
+                    fail("parent() of the %s name built via %s does not raise NoParent" % ("root" if ls else "empty", how))
+                    break
+            else:
+                if isinstance(par, Err):
+                    fail("parent() raised " + par.text + " for a name that has a parent (built via " + how + ")")
+                    break
+                if par != ls[1:]:
+                    fail("parent() is not the name minus its first label (built via " + how + ")")
+                    break
+                if (r, o, k, samerel) != (1, -1, len(ls) - 1, 1):
+                    fail("fullcompare(parent, name) is not (SUPERDOMAIN, <0, len-1) with the same relativity (built via " + how + ")")
+                    break
     elif op == 23:
         init, mode, ops, queries = case[1], case[2], case[3], case[4]
         res, max_depth, size, keys, probes, has = out
